@@ -38,7 +38,7 @@ pub fn exec_other(env: &mut Env, op: &Op, ctx: &str) {
         }
         Op::Query(q) => crate::sql::exec_query(env, q, ctx),
         Op::Concurrent(clients) => exec_concurrent(env, clients, ctx),
-        Op::HttpQuery { .. } | Op::HttpRawQuery { .. } | Op::HttpColumns { .. } => crate::http::exec_http(env, op, ctx),
+        Op::HttpQuery { .. } | Op::HttpRawQuery { .. } | Op::HttpColumns { .. } | Op::HttpMulti { .. } => crate::http::exec_http(env, op, ctx),
         _ => env.count("op_unimplemented"),
     }
 }
